@@ -13,8 +13,12 @@ const ruleHTTP = "same generator; the options go through LogConfig (reject_expir
 var Direct = harness.Define(harness.Opts{Name: "direct", Rule: ruleDirect, Quick: 3000, Thorough: 10000, MaxSample: 2500}, genDirect, checkDirect)
 var HTTP = harness.Define(harness.Opts{Name: "http", Rule: ruleHTTP, Quick: 1500, Thorough: 5000, MaxSample: 2500}, genHTTP, checkHTTP)
 
+const ruleClock = "wall clock (the only sleeping sub-property): 3-5 Instances per case set up at the same instant T with reject_expired / reject_unexpired / neither, generated valid chains (cert or precert, any hierarchy) whose leaf expires at trunc(T)+2 s; submitted once at once (asserted only if the clock read after the response is still before NotAfter) and once after NotAfter+1.2 s: reject_expired must then refuse, reject_unexpired and no filter must admit. Delays only make the leaf more expired"
+
+var Clock = harness.Define(harness.Opts{Name: "clock", Rule: ruleClock, Quick: 1, Thorough: 2, MaxSample: 600}, genClock, checkClock)
+
 func TestProps(t *testing.T) {
-	harness.Main(t, "C02", Direct, HTTP)
+	harness.Main(t, "C02", Direct, HTTP, Clock)
 	if os.Getenv("VERIF_REPLAY") != "" || t.Failed() {
 		return
 	}
